@@ -137,6 +137,16 @@ def run_case(case):
             res.label("value_with_history")
     cols = case.get("columns") or [1, 2, 3, 5]
     res.evals = len(cols)
+    if case.get("noise"):
+        # an earlier call that fails half-way (a run with an attribute name the library rejects) - unjudged; it must not
+        # influence the calls that follow
+        from curtsies.formatstring import Chunk, FmtStr, linesplit
+
+        res.label("failing_call_before")
+        try:
+            linesplit(FmtStr(Chunk("left"), Chunk(" ", {"no_such_attribute": True}), Chunk("right")), 20)
+        except Exception:
+            pass
     for c in cols:
         check(res, value, src, c, desc)
         if len(res.violations) > 3:
@@ -158,7 +168,7 @@ def strategy():
     return st.one_of(
         st.fixed_dictionaries({"desc": st.lists(run, min_size=0, max_size=5), "columns": cols, "build": gen.BUILDS, "obs": gen.OBS}),
         st.fixed_dictionaries({"desc": st.lists(run, min_size=0, max_size=5), "columns": cols, "build": gen.BUILDS, "obs": gen.OBS}),
-        st.fixed_dictionaries({"str": gen.text(alpha, 0, 16), "columns": cols}),
+        st.fixed_dictionaries({"str": gen.text(alpha, 0, 16), "columns": cols, "noise": st.booleans()}),
         st.fixed_dictionaries({"desc": st.lists(long_run, min_size=1, max_size=3), "columns": cols}),
         st.fixed_dictionaries({"str": gen.text(alpha, 40, 300), "columns": cols}),
     )
